@@ -8,10 +8,12 @@
 //   A  dispatch_after / dispatch_after_f: runs exactly once, never before `when`
 //   T  timer sources (one-shot and repeating, three clocks, leeways, ties, suspend/resume churn from another thread):
 //      never before start; data >= 1; sum of dispatch_source_get_data so far <= boundaries start + k*interval passed at
-//      the handler's clock reading; every live (not cancelled) timer whose start is well past has fired; some timers are
-//      cancelled from another thread around their fires
+//      the handler's clock reading; every live (not cancelled, not suspended) timer whose start has passed fires: the run
+//      waits for them with a PROGRESS watchdog (it gives up only after C11_STALL_MS, default 10 s, during which not one
+//      of the outstanding objects fired), never with an elapsed-time window; some timers are cancelled from another
+//      thread around their fires
 //   R  dispatch_source_set_timer replacing the settings in situations where no handler invocation can be in flight:
-//      (a) source suspended across the old deadline, (b) serial target queue blocked across the old deadline,
+//      (a) source suspended and its serial target queue drained by a dispatch_sync barrier, (b) serial target queue blocked,
 //      (c) from inside the handler; afterwards the handler must follow only the new settings
 // output: one line "FAIL <kind> ..." per violated object (first occurrence per object), then "SUMMARY ...".
 #include <dispatch/dispatch.h>
@@ -179,15 +181,39 @@ int main(int argc, char **argv) {
 		case ACT_UNBLOCK: dispatch_semaphore_signal(x->unblock); break;
 		case ACT_CANCEL: dispatch_source_cancel(x->ds); x->cancelled = 1; break;
 		case ACT_RECONF:
-			// a handler invocation that started before the suspend / block has long finished (>= 60 ms ago)
+			// no handler invocation may be in flight when the settings it is judged against change.  Blocked queue: the
+			// blocking item is running on the serial target queue, so no invocation is.  Suspended source: an invoke that
+			// passed its suspension test before dispatch_suspend may still be on its way to the handler; it runs as an item of
+			// the serial target queue, which this barrier waits out (no timing assumption)
+			if (x->kind == K_SUSP) dispatch_sync(x->q, ^{});
 			reconfigure(x, x->nd, x->ni);
 			break;
 		}
 	}
-	// let everything become due: the latest start is about +200 ms (reconf) + 400 ms
+	// let everything become due: the latest start is about +200 ms (reconf) + 400 ms (a lower bound on the wait only)
 	uint64_t end_ms = 760;
 	{ uint64_t now = (clk(0) - t0) / MS; if (now < end_ms) msleep((unsigned)(end_ms - now)); }
-	msleep(150);
+	// then wait for every object that must fire, with a progress watchdog: give up only when none of the outstanding
+	// objects has fired for stall_ms (a loaded machine delays fires, it does not stop all of them for seconds)
+	uint64_t stall_ms = getenv("C11_STALL_MS") ? strtoull(getenv("C11_STALL_MS"), NULL, 10) : 10000;
+	{
+		int last = -1; uint64_t idle_since = clk(0);
+		for (;;) {
+			int o = 0, future = 0; // due and not yet fired / start not yet reached
+			for (int i = 0; i < NA; i++) o += A[i].count == 0;
+			for (int i = 0; i < NX; i++) {
+				struct tm_s *x = &X[i];
+				if (!x->suspended && !x->cancelled && x->total == 0 && (x->kind == K_PLAIN || x->gen == 2)) {
+					if (clk(x->clock) > x->start) o++; else future++;
+				}
+			}
+			if (o == 0 && future == 0) break;
+			if (last < 0 || o < last || (o == 0 && future)) { last = o; idle_since = clk(0); }
+			if ((clk(0) - idle_since) / MS > stall_ms) break;
+			msleep(10);
+		}
+	}
+	msleep(150); // room for a second run of a dispatch_after block to show (more load can only hide it, never fake it)
 
 	int a_once = 0, t_fired = 0, r_ok = 0;
 	for (int i = 0; i < NA; i++) {
@@ -207,7 +233,7 @@ int main(int argc, char **argv) {
 				(unsigned long long)(x->interval == FOREVER_NS ? 1 : (x->bad_t - x->start) / x->interval + 1)); }
 		if (x->zero) { nfail++; printf("FAIL %s-zero-data clock=%d\n", kind, x->clock); }
 		uint64_t now = clk(x->clock);
-		int due = now > x->start && now - x->start > 120 * MS;
+		int due = now > x->start; // the progress watchdog above has given it at least stall_ms since anything last fired
 		int expect_new = x->kind != K_PLAIN; // the reconfigured start is always well past by now
 		if (!x->suspended && !x->cancelled && due && (x->total == 0) && (x->kind == K_PLAIN || x->gen == 2)) {
 			nfail++; printf("FAIL %s-never-fired clock=%d start=%llu now=%llu interval=%llu fires=%d set_timer_calls=%d\n", kind, x->clock,
